@@ -58,7 +58,7 @@ def graph_sx(spec, objs, root, st):
     return '(graph %s %d %s)' % (settings_sx(*st), root, ' '.join(nodes))
 
 
-def reference_print(spec, root, depth=None):
+def reference_print(spec, root, depth=None, msl=None):
     """independent oracle: bracket / marker token sequence by a path-based DFS; with a depth limit a container that is not an
     ancestor of itself is cut to its bare brackets once the budget is used up (the back-reference test comes first)"""
     out = []
@@ -71,7 +71,8 @@ def reference_print(spec, root, depth=None):
         out.append({0: '[', 1: '{', 2: '('}[kind])
         if left is None or left > 0:
             below = None if left is None else left - 1
-            for c in kids:
+            # max_seq_len: exactly the first N children are shown (the rest is summarised in a comment, which observed_tokens drops)
+            for c in (kids if msl is None or len(kids) <= msl else kids[:msl]):
                 if c[0] == 'l':
                     out.extend([str(c[1])] if below != 0 else ['(', ')'])       # an int below the limit prints as int(...)
                 else:
@@ -87,7 +88,7 @@ _TOK = re.compile(r"<Recursion on \w+ with id=(\d+)>|[\[\]{}()]|-?\d+")
 def observed_tokens(text, objs):
     ids = {str(id(o)): i for i, o in enumerate(objs)}
     out = []
-    t2 = re.sub(r"'k\d+':", '', text)
+    t2 = re.sub(r"'k\d+':", '', re.sub(r'#[^\n]*', '', text))
     for m in _TOK.finditer(t2):
         if m.group(1) is not None:
             out.append('M%d' % ids.get(m.group(1), -1))
@@ -171,7 +172,7 @@ def _safe_pformat_once(obj, st, limit):
             signal.setitimer(signal.ITIMER_REAL, limit, 0.25)
             _armed[0] = True
             try:
-                r = pp.pformat(obj, width=st[1], ribbon_width=st[2], depth=st[3])
+                r = pp.pformat(obj, width=st[1], ribbon_width=st[2], depth=st[3], max_seq_len=st[4])
                 _armed[0] = False
                 return r
             except _Timeout:
@@ -198,7 +199,9 @@ def graph_chunk(specs):
         if objs is None:
             continue
         finite = (1, 2, 3, 5)[(len(spec) + sum(len(k) for _, k in spec)) % 4]
-        for st in ((4, 79, 71, None, 1000, 0), (4, 12, 12, None, 1000, 0), (4, 79, 71, finite, 1000, 0)):
+        # the last one truncates: a back-reference among the shown children is still cut exactly there, whichever object the printer iterates over
+        small = (1, 2, 3)[(len(spec) + 2 * sum(len(k) for _, k in spec)) % 3]
+        for st in ((4, 79, 71, None, 1000, 0), (4, 12, 12, None, 1000, 0), (4, 79, 71, finite, 1000, 0), (4, 79, 71, None, small, 0)):
             text = safe_pformat(objs[0], st)
             # no residue: printing again, and printing the previous graph's root again, gives the same
             again = safe_pformat(objs[0], st)
@@ -209,8 +212,8 @@ def graph_chunk(specs):
             bad = None
             if text != again:
                 bad = 'printing the same value twice gives different text'
-            elif observed_tokens(text, objs) != reference_print(spec, 0, st[3]):
-                bad = 'markers / brackets differ from the path-based reference: %s vs %s' % (observed_tokens(text, objs), reference_print(spec, 0, st[3]))
+            elif observed_tokens(text, objs) != reference_print(spec, 0, st[3], st[4]):
+                bad = 'markers / brackets differ from the path-based reference: %s vs %s' % (observed_tokens(text, objs), reference_print(spec, 0, st[3], st[4]))
             if prev is not None and not bad:
                 ptext, pobj, pst = prev
                 if safe_pformat(pobj, pst) != ptext:
